@@ -53,9 +53,8 @@ Spec == Init /\ [][Next]_vars
 \* design-level: the transcript of the implementation satisfies C12/C13 at every step
 ImplRefinesProp == h # <<>> => LET e == h[Len(h)] IN ~s.crash /\ e.model \in e.allow
 
-\* vacuity guards: orthographic consequences of the rules (old order off)
-NoDoubleHasanta == \A i \in 1..(Len(s.buf) - 1) : ~(s.buf[i] = HASANTA /\ s.buf[i + 1] = HASANTA)
-AutoVowelInv == o.vowel /\ ~o.reph =>
+\* vacuity guard: an orthographic consequence of the rules (old order off)
+AutoVowelInv == o.vowel /\ ~o.reph /\ ~o.chandra =>
     \A i \in 1..Len(s.buf) : s.buf[i] \in Kars =>
         /\ i > 1
         /\ s.buf[i - 1] \notin IndepVowels /\ s.buf[i - 1] \notin Kars /\ s.buf[i - 1] \notin Punct
